@@ -44,6 +44,8 @@ pub struct Stats {
     pub backends: BTreeMap<String, u64>,
     /// non-trivial inputs counted by enumerating runners (distinct by construction)
     pub nontrivial_counted: u64,
+    /// small non-trivial cases (text) for the Miri replays of the thorough tier
+    pub small_cases: Vec<String>,
 }
 
 impl Stats {
@@ -76,6 +78,11 @@ impl Stats {
         for s in o.samples {
             if self.samples.len() < 8 {
                 self.samples.push(s);
+            }
+        }
+        for s in o.small_cases {
+            if self.small_cases.len() < 64 {
+                self.small_cases.push(s);
             }
         }
     }
@@ -169,6 +176,9 @@ pub fn run_property(def: &'static PropDef, tier: Tier, seed: u64, cases_override
                         let dg = case.digest();
                         st.distinct.insert(dg);
                         let nt = (def.nontrivial)(&case, &out);
+                        if nt && case.ops.len() <= 24 && st.small_cases.len() < 6 && !matches!(case.kind.as_str(), "par" | "arith" | "prim") {
+                            st.small_cases.push(case.to_text(hbv::specs::specs_for(&case.kind)));
+                        }
                         if nt {
                             st.nontrivial.insert(dg);
                             if st.samples.len() < 2 && w < 2 {
